@@ -245,8 +245,15 @@ pub fn parse_docs(attrs: &[Attribute]) -> Result<String> {
             Expr::Lit(ExprLit {
                 lit: Lit::Str(ref str),
                 ..
-            // `*/` would end the JSDoc comment early, so it is escaped
-            }) => Ok(str.value().replace("*/", "*\\/")),
+            // `*/` would end the JSDoc comment early, so it is escaped. The text is written right
+            // after a `*`, so a leading `/` must not touch it either.
+            }) => {
+                let mut text = str.value().replace("*/", "*\\/");
+                if text.starts_with('/') {
+                    text.insert(0, ' ');
+                }
+                Ok(text)
+            }
             _ => syn_err!(attr.span(); "doc  with non literal expression found"),
         })
         .collect::<Result<Vec<_>>>()?;
